@@ -50,7 +50,7 @@ def run(ctx):
     ok = any(n["k"] == "CallExpr" and n.get("callee") == "strcmp" and
              all("relpath" in cs.src(a) for a in n["args"]) for n in cs.nodes)
     ctx.check(ok, "R3.1", "cmp_streams:by-relpath", cs.loc(), "cmp_streams does not compare the relative paths")
-    ex = absint.Explorer(prog, effects=eff, inline=lambda n, d: False, loop_bound=2, summaries={
+    ex = absint.Explorer(prog, effects=eff, auto_inline=False, loop_bound=2, summaries={
         "cmp_streams": lambda ex_, st, a, f, e: [(INT(0), {("SORTED", ()): INT(1)})],
         "nftw": lambda ex_, st, a, f, e: [(INT(0), {("WALKED", ()): INT(1), ("SORTED", ()): INT(0)}), (INT(-1), {})],
         "opendir": lambda ex_, st, a, f, e: [(PTR("DIR"), {})], "closedir": lambda ex_, st, a, f, e: [(INT(0), {})],
